@@ -4,6 +4,7 @@ import (
 	"bytes"
 	"fmt"
 	"sync"
+	"sync/atomic"
 	"time"
 
 	"github.com/gopacket/gopacket"
@@ -45,6 +46,10 @@ type C12 struct {
 	Plan   *Plan
 	byFlow map[[2]gopacket.Flow]int
 	nextID []int // per worker
+	// re-opened connections: the direction that follows dir (same 4-tuple,
+	// next incarnation), and per connection whether its barrier has been passed
+	next   map[int]int
+	reborn []atomic.Bool
 }
 
 // site numbers of harness yield points (lock sites of the code under test are 1..9)
@@ -53,6 +58,7 @@ const (
 	siteCallEnd   = 101
 	siteCallback  = 102
 	siteFactory   = 103
+	siteBarrier   = 104
 )
 
 // NewStream is called from the package's factory, on whatever worker runs.
@@ -60,6 +66,11 @@ const (
 //go:norace
 func (h *C12) NewStream(net, tcp gopacket.Flow) *C12Stream {
 	d := h.byFlow[[2]gopacket.Flow{net, tcp}]
+	if n, ok := h.next[d]; ok && h.reborn[h.Plan.Dirs[d].Conn].Load() {
+		// every packet of the first incarnation has been fed: this stream is
+		// for the re-opened connection
+		d = n
+	}
 	w := h.S.Current()
 	id := 0
 	if w != nil {
@@ -134,60 +145,115 @@ func RunC12(c *sim.Ctx, pkg *C12Pkg) {
 	nworkers := 2 + c.Weighted(3, 1)
 	split := c.Chance(250) // packets of one direction split across workers
 	flusher := c.Chance(500)
+	// what the concurrent flusher does is decided first: connections are only
+	// re-opened in runs in which nothing but their own FINs closes them
+	nfl := 0
+	var flAll, flClosing []bool
+	closingFlush := false
+	if flusher {
+		nfl = 1 + c.Draw(3)
+		for i := 0; i < nfl; i++ {
+			flAll = append(flAll, c.Chance(150))
+			flClosing = append(flClosing, c.Chance(300))
+			closingFlush = closingFlush || flAll[i] || flClosing[i]
+		}
+	}
 	type job struct {
-		pk *Pkt
-		at int64
+		pk      *Pkt
+		at      int64
+		barrier int // >= 0: wait until every worker has fed its part of the first incarnation of this connection
 	}
 	jobs := make([][]job, nworkers)
 	t := int64(0)
+	lostIn := map[int]bool{} // direction index -> one of its segments is lost
+	next := map[int]int{}    // direction -> its next incarnation
+	parties := map[int]int{} // connection -> number of workers at its barrier
+	gates := map[int]*sync.Mutex{}
 	for ci := 0; ci < nconn; ci++ {
 		ndir := 1 + c.Weighted(1, 4)
 		w0 := c.Draw(nworkers)
-		for side := 0; side < ndir; side++ {
-			d := &Dir{Idx: len(p.Dirs), Conn: ci, Side: side}
-			src := []byte{10, 0, 0, byte(ci + 1)}
-			dst := []byte{10, 1, 0, byte(ci + 1)}
-			sp, dp := layers.TCPPort(1000+ci), layers.TCPPort(80)
-			if side == 1 {
-				src, dst, sp, dp = dst, src, dp, sp
-			}
-			d.Net = gopacket.NewFlow(layers.EndpointIPv4, src, dst)
-			d.Src, d.Dst = sp, dp
-			n := 1 + c.Draw(40)
-			fillStream(d, n)
-			d.ISN = []uint32{1000, 0xFFFFFFF0, 77}[c.Weighted(3, 1, 1)]
-			p.Dirs = append(p.Dirs, d)
-			// the two directions of a connection go to different workers
-			w := (w0 + side) % nworkers
-			var pks []*Pkt
-			pks = append(pks, &Pkt{Dir: d.Idx, Seq: d.ISN, SYN: true, Kind: "syn"})
-			nseg := 1 + c.Draw(3)
-			for off, k := 0, 0; off < n; k++ {
-				l := 1 + c.Draw(n)
-				if k == nseg-1 || off+l > n {
-					l = n - off
+		// a re-opened 4-tuple: once the connection has been closed by the FINs
+		// of all its directions, the same addresses and ports are used again
+		reopen := !split && !closingFlush && (ndir == 2 || !pkg.Bidir) && c.Chance(250)
+		for inc := 0; inc < 2; inc++ {
+			if inc == 1 {
+				if !reopen {
+					break
 				}
-				pks = append(pks, &Pkt{Dir: d.Idx, Seq: d.ISN + 1 + uint32(off), Off: off, Len: l, Kind: "data"})
-				off += l
-			}
-			if c.Chance(800) {
-				pks = append(pks, &Pkt{Dir: d.Idx, Seq: d.ISN + 1 + uint32(n), FIN: true, Off: n, Kind: "end"})
-			}
-			if len(pks) > 3 && c.Chance(250) {
-				// one data segment is lost on the way: only a flush can release what follows
-				k := 1 + c.Draw(len(pks)-2)
-				if pks[k].Kind == "data" {
-					pks = append(pks[:k], pks[k+1:]...)
-					c.Fault("segment_lost")
+				for side := 0; side < ndir; side++ {
+					d := p.Dirs[len(p.Dirs)-ndir+side]
+					if d.End != 0 || lostIn[d.Idx] {
+						reopen = false
+					}
 				}
-			}
-			for _, pk := range pks {
-				t += 1000
-				ww := w
-				if split {
-					ww = c.Draw(nworkers)
+				if !reopen {
+					break
 				}
-				jobs[ww] = append(jobs[ww], job{pk, t})
+				ws := map[int]bool{}
+				for side := 0; side < ndir; side++ {
+					ws[(w0+side)%nworkers] = true
+				}
+				for w := 0; w < nworkers; w++ {
+					if ws[w] {
+						t += 1000
+						jobs[w] = append(jobs[w], job{at: t, barrier: ci})
+					}
+				}
+				parties[ci] = len(ws)
+				gates[ci] = &sync.Mutex{}
+				c.Fault("connection_reopened")
+			}
+			for side := 0; side < ndir; side++ {
+				d := &Dir{Idx: len(p.Dirs), Conn: ci, Side: side, Inc: inc, End: 2}
+				if inc == 1 {
+					next[d.Idx-ndir] = d.Idx
+				}
+				src := []byte{10, 0, 0, byte(ci + 1)}
+				dst := []byte{10, 1, 0, byte(ci + 1)}
+				sp, dp := layers.TCPPort(1000+ci), layers.TCPPort(80)
+				if side == 1 {
+					src, dst, sp, dp = dst, src, dp, sp
+				}
+				d.Net = gopacket.NewFlow(layers.EndpointIPv4, src, dst)
+				d.Src, d.Dst = sp, dp
+				n := 1 + c.Draw(40)
+				fillStream(d, n)
+				d.ISN = []uint32{1000, 0xFFFFFFF0, 77}[c.Weighted(3, 1, 1)] + uint32(inc)*500000
+				p.Dirs = append(p.Dirs, d)
+				// the two directions of a connection go to different workers
+				w := (w0 + side) % nworkers
+				var pks []*Pkt
+				pks = append(pks, &Pkt{Dir: d.Idx, Seq: d.ISN, SYN: true, Kind: "syn"})
+				nseg := 1 + c.Draw(3)
+				for off, k := 0, 0; off < n; k++ {
+					l := 1 + c.Draw(n)
+					if k == nseg-1 || off+l > n {
+						l = n - off
+					}
+					pks = append(pks, &Pkt{Dir: d.Idx, Seq: d.ISN + 1 + uint32(off), Off: off, Len: l, Kind: "data"})
+					off += l
+				}
+				if c.Chance(800) {
+					pks = append(pks, &Pkt{Dir: d.Idx, Seq: d.ISN + 1 + uint32(n), FIN: true, Off: n, Kind: "end"})
+					d.End = 0
+				}
+				if len(pks) > 3 && c.Chance(250) {
+					// one data segment is lost on the way: only a flush can release what follows
+					k := 1 + c.Draw(len(pks)-2)
+					if pks[k].Kind == "data" {
+						pks = append(pks[:k], pks[k+1:]...)
+						lostIn[d.Idx] = true
+						c.Fault("segment_lost")
+					}
+				}
+				for _, pk := range pks {
+					t += 1000
+					ww := w
+					if split {
+						ww = c.Draw(nworkers)
+					}
+					jobs[ww] = append(jobs[ww], job{pk, t, -1})
+				}
 			}
 		}
 	}
@@ -197,9 +263,15 @@ func RunC12(c *sim.Ctx, pkg *C12Pkg) {
 	}
 	// ---- set up: single-threaded ----
 	s := coop.New(c)
-	h := &C12{S: s, Plan: p, byFlow: map[[2]gopacket.Flow]int{}, nextID: make([]int, nworkers+1)}
+	h := &C12{S: s, Plan: p, byFlow: map[[2]gopacket.Flow]int{}, nextID: make([]int, nworkers+1), next: next, reborn: make([]atomic.Bool, nconn)}
 	for _, d := range p.Dirs {
-		h.byFlow[[2]gopacket.Flow{d.Net, gopacket.NewFlow(layers.EndpointTCPPort, portBytes(d.Src), portBytes(d.Dst))}] = d.Idx
+		if d.Inc == 0 {
+			h.byFlow[[2]gopacket.Flow{d.Net, gopacket.NewFlow(layers.EndpointTCPPort, portBytes(d.Src), portBytes(d.Dst))}] = d.Idx
+		}
+	}
+	arrived := make([]atomic.Int32, nconn)
+	for _, g := range gates {
+		g.Lock() // opened by the last worker to arrive
 	}
 	finalCompletes, finalDelivers = nil, nil
 	pkg.SetHook(s.LockHook)
@@ -220,6 +292,22 @@ func RunC12(c *sim.Ctx, pkg *C12Pkg) {
 		wi := wi
 		s.Go(fmt.Sprintf("asm%d", wi), func(w *coop.W) {
 			for ji, j := range jobs[wi] {
+				if j.barrier >= 0 {
+					// a real lock as the gate: the scheduler sees a waiting worker as
+					// blocked, like on any lock of the code under test
+					g := gates[j.barrier]
+					w.Rec("barrier", int64(j.barrier), 0, 0, "", nil)
+					if int(arrived[j.barrier].Add(1)) == parties[j.barrier] {
+						h.reborn[j.barrier].Store(true)
+						g.Unlock()
+					} else {
+						s.LockHook(siteBarrier, g, nil, true)
+						g.Lock()
+						g.Unlock()
+					}
+					w.Rec("barrier_passed", int64(j.barrier), 0, 0, "", nil)
+					continue
+				}
 				d := p.Dirs[j.pk.Dir]
 				tcp, buf := p.TCP(j.pk)
 				w.Rec("call_enter", int64(j.pk.Dir), int64(j.pk.Off), int64(j.pk.Len)<<2|b2i(j.pk.SYN)<<1|b2i(j.pk.FIN), "assemble", nil)
@@ -235,14 +323,10 @@ func RunC12(c *sim.Ctx, pkg *C12Pkg) {
 	}
 	if flusher {
 		fa := pkg.NewAssembler()
-		nfl := 1 + c.Draw(3)
 		cut := make([]int64, nfl)
-		all := make([]bool, nfl)
-		closing := make([]bool, nfl)
+		all, closing := flAll, flClosing
 		for i := range cut {
 			cut[i] = int64(c.Draw(int(t/1000)+2)) * 1000
-			all[i] = c.Chance(150)
-			closing[i] = c.Chance(300)
 		}
 		c.Fault("concurrent_flusher")
 		s.Go("flusher", func(w *coop.W) {
@@ -277,7 +361,17 @@ func RunC12(c *sim.Ctx, pkg *C12Pkg) {
 		// the interleaved history, as executed: step, worker, what
 		c.Ev("w:"+e.Kind+e.S, int64(e.Step), int64(e.W), e.A, e.B, e.C, int64(len(e.Data)))
 	}
-	checkC12(c, h, merged, pkg, split)
+	// directions every byte of which has to come out: fed in order by one
+	// assembler, nothing lost, and no flush that closes connections under it
+	must := map[int]bool{}
+	if !split && !closingFlush {
+		for _, d := range p.Dirs {
+			if !lostIn[d.Idx] {
+				must[d.Idx] = true
+			}
+		}
+	}
+	checkC12(c, h, merged, pkg, split, must)
 	if n := pkg.PoolConns(); n != 0 {
 		c.Fail("lifecycle", "connections-left", "flush-all", "%d connections remain in the pool after the final flush-all", n)
 	}
@@ -300,7 +394,7 @@ type c12sd struct {
 }
 
 // checkC12 evaluates the merged history.
-func checkC12(c *sim.Ctx, h *C12, evs []coop.Event, pkg *C12Pkg, split bool) {
+func checkC12(c *sim.Ctx, h *C12, evs []coop.Event, pkg *C12Pkg, split bool, must map[int]bool) {
 	p := h.Plan
 	streams := map[int]*c12st{}
 	inCall := map[int]string{}    // worker -> kind of call in progress
@@ -317,7 +411,7 @@ func checkC12(c *sim.Ctx, h *C12, evs []coop.Event, pkg *C12Pkg, split bool) {
 			return d
 		}
 		for _, o := range p.Dirs {
-			if o.Conn == d.Conn && o.Side != d.Side {
+			if o.Conn == d.Conn && o.Side != d.Side && o.Inc == d.Inc {
 				return o
 			}
 		}
@@ -429,6 +523,28 @@ func checkC12(c *sim.Ctx, h *C12, evs []coop.Event, pkg *C12Pkg, split bool) {
 			if st.firstCB < 0 {
 				st.firstCB = len(evs)
 			}
+		}
+	}
+	// completeness
+	for _, d := range p.Dirs {
+		if !must[d.Idx] {
+			continue
+		}
+		got, seen := 0, false
+		for _, st := range streams {
+			if x := st.sd[d.Idx]; x != nil && x.anchored {
+				seen = true
+				got += x.pos
+			}
+		}
+		if !seen {
+			c.Fail("in-order", "never-delivered", "flush-all", "direction %d (connection %d, incarnation %d, %d bytes, fed in order by one assembler) was delivered to no stream, not even by the final flush-all", d.Idx, d.Conn, d.Inc, len(d.S))
+		}
+		if got != len(d.S) {
+			c.Fail("in-order", "bytes-never-delivered", "flush-all", "direction %d (connection %d, incarnation %d): %d of %d bytes delivered after the final flush-all although they were fed in order by one assembler", d.Idx, d.Conn, d.Inc, got, len(d.S))
+		}
+		if d.Inc > 0 {
+			c.Probe("reopened_connection_delivered")
 		}
 	}
 	kept := 0
